@@ -89,6 +89,13 @@ type Unit struct {
 	epochN int
 	inAtomic int
 	replay *replaySpec
+	storeLog map[string][2]string // named heap version -> (previous version, index term)
+	allocN map[string]int // alloc constant -> serial
+	allocSerial int
+	freshOnly map[string]bool
+	refines *Contract
+	refSig *types.Signature
+	refNames map[string]*Val
 }
 
 const maxPaths = 6000
@@ -425,6 +432,14 @@ func (u *Unit) heapSet(st *State, name, valSort, term string) {
 	c := u.d.fresh(name, arrSort(SInt, valSort))
 	st.assumeFact(tEq(c, term))
 	st.heap[name] = c
+	if pre := "(store " + cur + " "; strings.HasPrefix(term, pre) {
+		rest := term[len(pre):]
+		idx := firstSexpr(rest)
+		if u.storeLog == nil {
+			u.storeLog = map[string][2]string{}
+		}
+		u.storeLog[c] = [2]string{cur, idx}
+	}
 }
 
 func (u *Unit) heapHavoc(st *State, name string) {
@@ -531,8 +546,37 @@ func derefType(t types.Type) types.Type {
 	return t
 }
 
+func firstSexpr(s string) string {
+	if s == "" {
+		return ""
+	}
+	if s[0] != '(' {
+		if i := strings.IndexAny(s, " )"); i >= 0 {
+			return s[:i]
+		}
+		return s
+	}
+	d := 0
+	for i := 0; i < len(s); i++ {
+		if s[i] == '(' {
+			d++
+		} else if s[i] == ')' {
+			d--
+			if d == 0 {
+				return s[:i+1]
+			}
+		}
+	}
+	return s
+}
+
 func (u *Unit) alloc(st *State) string {
 	r := u.d.fresh("new", SInt)
+	if u.allocN == nil {
+		u.allocN = map[string]int{}
+	}
+	u.allocSerial++
+	u.allocN[r] = u.allocSerial
 	st.assumeFact(tEq(r, app("+", st.wm, "1")))
 	st.wm = r
 	return r
